@@ -86,15 +86,26 @@ def classify(U, p, nodes):
     return "accept"
 
 
-def check_insert(res, U, p, P, W, rep, nodes, labels, chain=None):
+def check_insert(res, U, p, P, W, rep, nodes, labels, chain=None, box="list"):
     """one knot_insert call in lockstep; returns the curve after an accepted insertion (or None)"""
     res.transition()
     exact = rep == "frac"
     c = lib.mk_curve(U, P, W, rep)
     before = lib.snap_curve(c)
     dec = classify(U, p, nodes)
-    out = lib.outcome(c.knot_insert, [lib.conv(x, rep) for x in nodes])
+    arg = [lib.conv(x, rep) for x in nodes]
+    if box == "reversed":
+        arg = arg[::-1]
+    elif box == "tuple":
+        arg = tuple(arg)
+    elif box == "array":
+        arr = lib.np.empty(len(arg), dtype=object)
+        arr[:] = arg
+        arg = arr
+    out = lib.outcome(c.knot_insert, arg)
     tags = dict(rep=rep, rational=W is not None, nodes="+".join(labels), chained=bool(chain))
+    if box != "list":
+        tags["box"] = box
     where = f"U={U} P={P} W={W} rep={rep} knot_insert({nodes}) [{'+'.join(labels)}]" + (f" after {chain}" if chain else "")
     res.outcome(f"{dec}:{'ok' if out[0] == 'ok' else out[1]}")
     if dec == "reject":
@@ -294,6 +305,10 @@ def run_case(case, res):
                     # from one another by 1e-10 only (all within any absolute tolerance of each other, but not equal)
                     configs += [(gen, [w * F(1, 10 ** 10) for w in gw], "frac"),
                                 (gen, [1 + F(i % 2 + i % 3, 10 ** 10) for i in range(n)], "frac")]
+            if size:
+                # the same request in other containers (tuple, numpy object array) and with the nodes in decreasing order
+                for box in ("tuple", "array") + (("reversed",) if size > 1 else ()):
+                    check_insert(res, U, p, gen, None, "frac", nodes, labels, box=box)
             for P, W, rep in configs:
                 c = check_insert(res, U, p, P, W, rep, nodes, labels)
                 # chained second insertion from the non-initial state (generic configurations, first call single node)
